@@ -265,14 +265,14 @@ def deferred_worker(args):
 
                         async def main():
                             return await process_graphql_query(aschema, q, variables=variables, context=ctx, runtime=rt)
-                        res = loop.run_until_complete(asyncio.wait_for(main(), 20))
+                        res = loop.run_until_complete(asyncio.wait_for(main(), 90))
                     else:
-                        res = process_graphql_query(pschema, q, variables=variables, context={"world": b["world"]}, runtime=pool).result(timeout=20)
+                        res = process_graphql_query(pschema, q, variables=variables, context={"world": b["world"]}, runtime=pool).result(timeout=90)
                 except Exception as e:
                     out.setdefault("rich-%s/raises/%s" % (which, type(e).__name__), ["execution on the real runtime raises or hangs", dict(wit, error=repr(e))])
                     hangs += isinstance(e, (asyncio.TimeoutError, TimeoutError)) or "Timeout" in type(e).__name__
                     if hangs >= 2:
-                        return out, n       # a hanging runtime would cost 20 s per document
+                        return out, n       # a hanging runtime would cost 90 s per document
                     if which == "asyncio":  # the loop may hold abandoned tasks
                         loop.close()
                         loop = asyncio.new_event_loop()
